@@ -590,3 +590,42 @@ RS.rules.append(Rule('C12.R7', 'K-TAINT', 'job numbers are sparse: the number of
                      'job numbers (`%n` is resolved by looking the number up, not by comparing it with the count) - shared with C13.R7',
                      _c13_sparse_job_numbers))
 RS.explanation += ' The number of jobs is never used as a bound or validity test for job numbers (R7 = C13.R7).'
+
+
+# ---------------------------------------------------------------------------------------
+# added after seed C13-s6 (a simulator that reuses process IDs) exposed a latent defect of the job list (fix 92c3b60)
+@RS.rule('C12.R8', 'K-GUARD', 'a job whose process has terminated keeps its final state: JobList::update_status changes Job::state only behind a '
+         'test that the recorded state is still alive (a later report for the same process ID belongs to another process that the '
+         'kernel gave the ID to: the shell passes the state of every awaited child, job or not, to the job list)')
+def r8(cx):
+    F = cx.F
+    fn = JOBLIST + '::update_status'
+    body = F.body(fn)
+    cx.fn(body.fn)
+    du = Q.DefUse(body)
+    writes = Q.field_writes(body, JOB, 'state')
+    cx.require(writes, 'JobList::update_status no longer writes Job::state (anchor moved)')
+
+    def alive_test(org, lab, depth=2):
+        if org['k'] == 'call' and Q.callee_is(org['t'], ['yash_env::job::ProcessState::is_alive']):
+            return lab == ('bool', True)
+        if org['k'] == 'call' and Q.callee_is(org['t'], [re.compile(r'yash_env::job::(Job|ProcessState|ProcessResult)::(is_finished|is_terminated|is_halted)$')]):
+            return lab == ('bool', False)
+        if org['k'] == 'discr' and 'ProcessState' in (org.get('ty') or ''):
+            return lab == ('variant', 'Running')
+        if org['k'] == 'discr' and 'ProcessResult' in (org.get('ty') or ''):
+            return lab == ('variant', 'Stopped')
+        return False
+
+    for w in writes:
+        blk = w[0]
+        ok = any(alive_test(org, lab) for org, lab, e in Q.implied_conditions(F, body, du, blk))
+        cx.site('update_status: Job::state written at %s behind a still-alive test of the recorded state: %s' % (body.loc(w[2]) if len(w) > 2 else body.loc(body.term(blk)), ok))
+        if not ok:
+            cx.violation(fn, 'finished-job-state-overwritten', 'update_status overwrites the state of a job whose process has already terminated: '
+                         'the job stays listed until `wait`/`jobs` reports it, the kernel may give its process ID to a new process meanwhile, '
+                         'and the shell reports the state of every awaited child to the job list - `cmd & ...; wait $!` then returns the '
+                         'status of an unrelated foreground command', loc=body.loc(w[2]) if len(w) > 2 else None)
+
+
+RS.explanation += ' A finished job keeps its final state: update_status ignores reports for a terminated job (R8).'
